@@ -576,6 +576,27 @@ pub fn run(cfg: &Cfg, rep: &mut Report, mode: &Mode2) {
             }
         }
     }
+    for (idx, case) in crate::optyping::typed_filter_cases().iter().enumerate() {
+        if !cfg.owns(idx as u64) {
+            continue;
+        }
+        for text in &case.calls {
+            let m = run_text(text, FUEL);
+            if matches!(m.outcome, Outcome::Rejected(..)) {
+                ctx.rep.count("optyping:typed-filter:rejected");
+                continue;
+            }
+            ctx.rep.count("optyping:typed-filter:accepted");
+            ctx.rep.distinct_case(text);
+            for (key, what) in ctx.absorb("optyping-typed-filter", text, &m) {
+                if ctx.want(&key) {
+                    ctx.emit(&key, &what, text);
+                } else {
+                    ctx.rep.count(&format!("further:{}", truncate(&key, 80)));
+                }
+            }
+        }
+    }
     for (idx, text) in crate::optyping::diverging_branch_programs().iter().enumerate() {
         if !cfg.owns(idx as u64) {
             continue;
